@@ -47,6 +47,35 @@ async def scenario(sname, direction, op1, op2):
     return bad, listener.trace, r
 
 
+async def cancelled_then(sname, direction, op1, op2, turns):
+    """the caller of op1 is cancelled (a timeout around abort / pause) while op1 holds the state lock; then op2 is issued"""
+    t = Transfer('user', 'path', direction)
+    listener = L()
+    t.state_listeners.append(listener)
+    t.state = getattr(ST, sname)(t)
+    t._transfer_task = asyncio.create_task(slow())
+    await asyncio.sleep(0)
+    s = t.state
+    first = asyncio.ensure_future(getattr(s, op1)())
+    for _ in range(turns):
+        await asyncio.sleep(0)
+    first.cancel()
+    try:
+        await first
+    except BaseException:
+        pass
+    try:
+        r = await getattr(t.state, op2)()
+    except Exception as e:      # noqa
+        r = e
+    for _ in range(30):
+        await asyncio.sleep(0)
+    if t._transfer_task and not t._transfer_task.done():
+        t._transfer_task.cancel()
+    bad = [(a, b) for a, b in listener.trace if b not in EDGES.get(a, [])]
+    return bad, listener.trace, r
+
+
 async def single(sname, direction, op):
     t = Transfer('user', 'path', direction)
     listener = L()
@@ -89,6 +118,16 @@ def main():
                         verdict(True, f'{sname}: {op1}() holding the lock || {op2}() on the same captured state object: '
                                       f'listeners saw {trace}; not edges: {bad}; results {r}',
                                 input={'state': sname, 'direction': direction.name, 'ops': [op1, op2]})
+    for sname in ['QueuedState', 'InitializingState', 'DownloadingState', 'UploadingState', 'IncompleteState', 'FailedState', 'PausedState']:
+        for direction in (TransferDirection.DOWNLOAD, TransferDirection.UPLOAD):
+            for op1 in ('abort', 'pause'):
+                for op2 in ('abort', 'pause', 'queue', 'fail'):
+                    for turns in (1, 2, 3):
+                        bad, trace, r = run(cancelled_then(sname, direction, op1, op2, turns))
+                        if bad:
+                            verdict(True, f'{sname}: the caller of {op1}() is cancelled after {turns} loop turns (it holds the state lock), then {op2}(): '
+                                          f'listeners saw {trace}; not edges: {bad}; result {r}',
+                                    input={'state': sname, 'direction': direction.name, 'ops': [op1 + ' (caller cancelled)', op2]})
     verdict(False)
 
 
